@@ -125,7 +125,8 @@ func cookiePairs(h string) [][2]string {
 			out = append(out, [2]string{part, ""})
 			continue
 		}
-		n, v := strings.TrimSpace(part[:i]), strings.TrimSpace(part[i+1:])
+		// servers trim blanks around the name; a blank inside the pair after "=" belongs to the value (and makes it no cookie value)
+		n, v := strings.TrimSpace(part[:i]), part[i+1:]
 		if len(v) >= 2 && v[0] == '"' && v[len(v)-1] == '"' {
 			v = v[1 : len(v)-1]
 		}
